@@ -54,14 +54,31 @@ Bodies == << <<"    print 1\n">>,
                "    for range x\n", "        print 1\n", "    end\n", "    for i := range x x x\n", "        print i\n", "    end\n", "    return x\n">>,
              <<"    print x\n">> >>
 Header(kw, c, b) == <<kw>> \o HdrSeq(c % 10000000, c \div 10000000) \o <<"\n">> \o Bodies[b] \o <<"end\n", "print 2\n">>
+\* ill-formed bindings of x inside a function body (the value has no type, the range cannot be ranged over, the
+\* type does not exist ...), each followed by the bodies that use x in every expression and statement form;
+\* closer = the lines that close what the binding opened
+IllBinds == << [b |-> <<"    for x := range true\n">>, c |-> <<"    end\n">>], [b |-> <<"    av:any\n", "    for x := range av\n">>, c |-> <<"    end\n">>],
+               [b |-> <<"    for x := range 1 2 \"s\"\n">>, c |-> <<"    end\n">>], [b |-> <<"    for x := range\n">>, c |-> <<"    end\n">>],
+               [b |-> <<"    for x := range nosuch\n">>, c |-> <<"    end\n">>], [b |-> <<"    for x := range (print 1)\n">>, c |-> <<"    end\n">>],
+               [b |-> <<"    x := [][0]\n">>, c |-> <<>>], [b |-> <<"    x := {}.k\n">>, c |-> <<>>], [b |-> <<"    x := {}[\"k\"]\n">>, c |-> <<>>],
+               [b |-> <<"    x := print 1\n">>, c |-> <<>>], [b |-> <<"    x := (print 1)\n">>, c |-> <<>>], [b |-> <<"    x := nosuch\n">>, c |-> <<>>],
+               [b |-> <<"    x := 1 +\n">>, c |-> <<>>], [b |-> <<"    x:foo\n">>, c |-> <<>>], [b |-> <<"    x := [1 \"a\"][0] + 1\n">>, c |-> <<>>],
+               [b |-> <<"    x := []\n", "    x = x[0]\n">>, c |-> <<>>], [b |-> <<"    x := -true\n">>, c |-> <<>>], [b |-> <<"    x := !1\n">>, c |-> <<>>],
+               [b |-> <<"    x := [][0][0]\n">>, c |-> <<>>], [b |-> <<"    x := ([])[0]\n">>, c |-> <<>>],
+               [b |-> <<"    for x := range true\n", "        y := x\n", "        for z := range y\n", "            print z\n", "        end\n">>, c |-> <<"    end\n">>],
+               [b |-> <<"    while nosuch\n", "        x := nosuch2\n">>, c |-> <<"    end\n">>],
+               [b |-> <<"    if [][0]\n", "        x := 1\n">>, c |-> <<"    end\n">>] >>
+IllProg(i, b) == <<"func g\n">> \o IllBinds[i].b \o Bodies[b] \o IllBinds[i].c \o <<"end\n", "g\n">>
 HdrKw == << "func ", "on ", "on key", "func f", "on down", "func f:num" >>
 
 Init == mu \in {<<s, e, 0>> : s \in DOMAIN Seeds, e \in Edits1} \cup {<<0 - k, h, 1>> : k \in {1, 2}, h \in Headers}
                \cup {<<0 - k, h, b>> : k \in {3, 4, 5, 6}, h \in Headers2, b \in {2, 3, 4}}
+               \cup (IF Headers2 = {} THEN {} ELSE {<<-7, i, b>> : i \in DOMAIN IllBinds, b \in {2, 3, 4}})
                \cup {<<s, e2 \div 10, Second[(e2 % 10) + 1]>> : s \in DOMAIN Seeds, e2 \in Edits2}
 Next == FALSE /\ UNCHANGED mu
 
-Mutant == IF mu[1] < 0 THEN Header(HdrKw[0 - mu[1]], mu[2], mu[3])
+Mutant == IF mu[1] = -7 THEN IllProg(mu[2], mu[3])
+          ELSE IF mu[1] < 0 THEN Header(HdrKw[0 - mu[1]], mu[2], mu[3])
           ELSE LET a == Apply(Seeds[mu[1]], mu[2]) IN IF mu[3] = 0 THEN a ELSE Apply(a, mu[3])
 Emit == PrintT(ToJson([seed |-> mu[1], e1 |-> mu[2], e2 |-> mu[3], src |-> Mutant]))
 =============================================================================
